@@ -128,6 +128,8 @@ func c09(run *ev.Run, tier string) {
 		f, defs := j.f, slotTable[j.f]
 		r := rng.New(uint64(run.Seed)).Fork(uint64(ji))
 		s := &gen.Spec{Name: "scr", Arch: "amd64", Version: "1.0.0", Maintainer: "S <s@example.com>", Description: "scripts", MTime: 1400000000}
+		s.Umask = []int64{0, 0o022, 0o027, 0o077}[ji%4] // the umask is for payload files, not for maintainer scripts
+		shared := j.v == 1 && j.mask%3 == 0 // every configured slot points at the same script file
 		s.RPM.BuildHost = "verif-host"
 		s.Contents = []*gen.Content{{Src: payload, Dst: "/opt/scr/payload.txt"}}
 		bodies := map[string][]byte{}
@@ -140,6 +142,10 @@ func c09(run *ev.Run, tier string) {
 			tok := fmt.Sprintf("TOKEN-%s-%s-%d", f, d.slot, ji)
 			body := scriptBody(r, tok, j.v+k, f == "rpm")
 			p := filepath.Join(dir, fmt.Sprintf("j%d-%s.sh", ji, strings.TrimPrefix(d.slot, ".")))
+			if shared {
+				body = scriptBody(r, fmt.Sprintf("TOKEN-%s-shared-%d", f, ji), j.v, f == "rpm")
+				p = filepath.Join(dir, fmt.Sprintf("j%d-shared.sh", ji))
+			}
 			if err := os.WriteFile(p, body, 0o600); err != nil {
 				run.Inconclusive(err.Error())
 				return
